@@ -161,7 +161,8 @@ def random_cases(draw):
           'limit': draw(st.integers(0, 3)), 'forward': draw(st.booleans()), 'skipna': draw(st.booleans())}
     if target == 'frame':
         rec = draw(gen.frame_recipe(min_rows=0, max_rows=5, min_cols=0, max_cols=5, kinds=KINDS,
-                                    index_kinds=('auto', 'int', 'str') if op != 'fillna_container' else ('auto', 'int', 'str', 'ih', 'date'), column_kinds=('auto', 'str', 'int')))
+                                    index_kinds=('auto', 'int', 'str') if op != 'fillna_container' else ('auto', 'int', 'str', 'ih', 'date'),
+                                    column_kinds=('auto', 'str', 'int') if op != 'fillna_container' else ('auto', 'str', 'ih', 'int')))
     else:
         rec = draw(gen.series_recipe(max_size=7, kinds=KINDS, index_kinds=('auto', 'int', 'str')))
     return dict({'target': target, 'op': op, 'rec': rec}, **ch)
@@ -309,8 +310,16 @@ def check_random(case):
             oix = f.index.iloc[keep_r]
         else:
             oix = [ilr[i] for i in keep_r] + xr
+        if f.columns.depth > 1:
+            # hierarchical columns (a level may be datetime-typed): the container's columns are a sub-index of the same class
+            keep_c = sorted(keep_c)
+            xc = []
         other = sf.Frame.from_items([(clr[j], [data[(i, j)] for i in keep_r] + [7777] * len(xr)) for j in keep_c] + [(c, [7777] * (len(keep_r) + len(xr))) for c in xc],
                                     index=oix)
+        if f.columns.depth > 1:
+            other = other.relabel(columns=f.columns.iloc[keep_c])
+            classes.append('fill-frame-columns:ih' + ('+date' if any(isinstance(x, np.datetime64) for t in clr for x in t) else ''))
+            classes.append('fill-frame-index-depth:%d' % f.index.depth)
         r = lib(lambda: f.fillna(other))
         if isinstance(r, Raised):
             raise Failure('raised:%s' % r.cls, 'fillna(Frame) raised %r' % r.exc, r.where)
